@@ -597,7 +597,8 @@ SEM_MUTATIONS = [
     ("this", "that"), ("$next", "$max"), (":8", ":9"), (":16", ":64"), ("LittleEndian", "MiddleEndian"), ("true", "1"), (" < ", " && "),
     ("struct ", "bits "), ("bits:", "struct:"), ("let ", "let $"), ("$present(", "$upper_bound("), ("requires", "require"), ("[]", "[][]"),
     ("(", "(("), (")", ""), (" ? ", " : "), ("$default ", ""), ("byte_order", "text_output"), ("0 [+", "$next [+"), (" + ", " - "), (" * ", " * 1000000000000 * "),
-    ("$size_in_bytes", "$size_in_bits"), ("enum ", "external "), ("1", "18446744073709551616"), ("AA", "BB"), ("En", "St"), ("f", "p"), ("v", "f"),
+    ("$size_in_bytes", "$size_in_bits"), ("enum ", "external "), ("this", "$static_size_in_bits"), ("this", "$is_statically_sized"), ("1", "$static_size_in_bits"),
+    ("true", "$is_statically_sized"), (" < ", " < $static_size_in_bits + "), ("0 [+", "$static_size_in_bits [+"), ("this", "$next"), ("this", "$size_in_bytes"), ("1", "18446744073709551616"), ("AA", "BB"), ("En", "St"), ("f", "p"), ("v", "f"),
 ]
 
 
@@ -615,3 +616,51 @@ def c16_source(rnd):
             text = text[:i] + b + text[i + len(a) :]
         return "model-mutated", {"m.emb": text}, "m.emb"
     return "model-valid", {"m.emb": text}, "m.emb"
+
+
+def import_pair(rnd):
+    """(class, files, main): a main module that uses types, enum values and constant
+    virtual fields of an imported model module; one of the two files may be mutated."""
+    m, _ = layout_module(rnd)
+    # give the imported module some constants to refer to
+    for t in m.types:
+        if isinstance(t, M.Struct) and t.kind == "struct" and rnd.random() < 0.7:
+            f = M.Field("k%d" % rnd.randrange(1000), value=rnd.choice([("n", 7), ("op", "+", ("n", 1), ("n", 2)), ("b", True), ("op", "*", ("n", 3), ("n", 5))]))
+            t.fields.append(f)
+    imp_text = module_text(m)
+    lines = ['import "imp.emb" as imp', '[$default byte_order: "LittleEndian"]', "struct Main:", "  0 [+1]  UInt  a"]
+    pos = 1
+    for t in m.types:
+        if isinstance(t, M.Enum):
+            lines.append("  %d [+1]  imp.%s  e%d" % (pos, t.name, pos))
+            lines.append("  if e%d == imp.%s.%s:" % (pos, t.name, t.values[0][0]))
+            lines.append("    %d [+1]  UInt  c%d" % (pos + 1, pos))
+            pos += 2
+        elif t.kind == "struct":
+            ss = getattr(t, "static_size", None)
+            if ss and not t.params:
+                lines.append("  %d [+%d]  imp.%s  s%d" % (pos, ss, t.name, pos))
+                pos += ss
+            for f in t.fields:
+                if f.is_virtual and not has_ref(f.value):
+                    lines.append("  let v%d = imp.%s.%s" % (pos, t.name, f.name))
+                    lines.append("  let w%d = imp.%s.%s + a" % (pos, t.name, f.name))
+                    pos += 1
+    main_text = "\n".join(lines) + "\n"
+    k = rnd.random()
+    if k < 0.5:
+        a, b = rnd.choice(SEM_MUTATIONS)
+        idxs = [i for i in range(len(imp_text)) if imp_text.startswith(a, i)]
+        if idxs:
+            i = rnd.choice(idxs)
+            imp_text = imp_text[:i] + b + imp_text[i + len(a) :]
+        # a type error inside a constant of the imported module
+        if rnd.random() < 0.4:
+            imp_text = imp_text.replace(" = 1 + 2", " = 1 + true", 1).replace(" = 3 * 5", " = 3 * (1 == 1)", 1)
+    elif k < 0.7:
+        a, b = rnd.choice(SEM_MUTATIONS)
+        idxs = [i for i in range(len(main_text)) if main_text.startswith(a, i)]
+        if idxs:
+            i = rnd.choice(idxs)
+            main_text = main_text[:i] + b + main_text[i + len(a) :]
+    return "import-pair", {"m.emb": main_text, "imp.emb": imp_text}, "m.emb"
